@@ -6,6 +6,7 @@
   kernel against them.
 -/
 import Proofs.C09_Lemmas
+import Proofs.C09_Units
 import Atomman.Generated.UnitTable
 import Atomman.Generated.LammpsStyle
 import Mathlib.Tactic.Ring
@@ -21,56 +22,6 @@ set_option linter.unusedSectionVars false
 set_option linter.unusedVariables false
 
 variable {K : Type} [Field K] [DecidableEq K]
-
-theorem powNat_eq (a : K) (n : Nat) : powNat a n = a ^ n := by
-  induction n with
-  | zero => simp [powNat]
-  | succ n ih => simp [powNat, ih, pow_succ]
-
-theorem powInt_eq (a : K) (n : Int) : powInt a n = a ^ n := by
-  unfold powInt
-  split
-  · rename_i h
-    rw [powNat_eq]
-    conv_rhs => rw [← Int.toNat_of_nonneg h]
-    rw [zpow_natCast]
-  · rename_i h
-    rw [powNat_eq]
-    have h' : 0 ≤ -n := by omega
-    conv_rhs => rw [← neg_neg n, zpow_neg, ← Int.toNat_of_nonneg h', zpow_natCast]
-    simp
-
-def Scales.Nonzero (sc : Scales K) : Prop := sc.m ≠ 0 ∧ sc.kg ≠ 0 ∧ sc.s ≠ 0 ∧ sc.c ≠ 0 ∧ sc.k ≠ 0
-
-theorem factor_eq (sc : Scales K) (d : D5) :
-    factor sc d = sc.m ^ d.m * sc.kg ^ d.kg * sc.s ^ d.s * sc.c ^ d.c * sc.k ^ d.k := by
-  simp [factor, powInt_eq]
-
-theorem factor_zero (sc : Scales K) : factor sc D5.zero = 1 := by
-  simp [factor_eq, D5.zero]
-
-theorem factor_ne_zero {sc : Scales K} (h : sc.Nonzero) (d : D5) : factor sc d ≠ 0 := by
-  obtain ⟨h1, h2, h3, h4, h5⟩ := h
-  rw [factor_eq]
-  have := zpow_ne_zero d.m h1; have := zpow_ne_zero d.kg h2; have := zpow_ne_zero d.s h3
-  have := zpow_ne_zero d.c h4; have := zpow_ne_zero d.k h5
-  simp_all
-
-theorem factor_add {sc : Scales K} (h : sc.Nonzero) (a b : D5) :
-    factor sc (D5.add a b) = factor sc a * factor sc b := by
-  obtain ⟨h1, h2, h3, h4, h5⟩ := h
-  simp only [factor_eq, D5.add, zpow_add₀ h1, zpow_add₀ h2, zpow_add₀ h3, zpow_add₀ h4, zpow_add₀ h5]
-  ring
-
-theorem factor_sub {sc : Scales K} (h : sc.Nonzero) (a b : D5) :
-    factor sc (D5.sub a b) = factor sc a / factor sc b := by
-  obtain ⟨h1, h2, h3, h4, h5⟩ := h
-  simp only [factor_eq, D5.sub, zpow_sub₀ h1, zpow_sub₀ h2, zpow_sub₀ h3, zpow_sub₀ h4, zpow_sub₀ h5]
-  ring
-
-theorem factor_smul (sc : Scales K) (n : Int) (a : D5) :
-    factor sc (D5.smul n a) = factor sc a ^ n := by
-  simp only [factor_eq, D5.smul, zpow_mul', mul_zpow]
 
 /-- one scaled value: `w = v · m^a kg^b s^c C^d K^e`. -/
 def ScaledBy (sc : Scales K) (vd : K × D5) (w : K) : Prop := w = vd.1 * factor sc vd.2
@@ -351,5 +302,232 @@ theorem style_entry_scaling [CharZero K] (toInt? : K → Option Int) (hI : ∀ x
     have := dim_analysis_sound toInt? hI unitTable s dv v d hp hv
     rw [← h3, ← this]
     exact eval_dimension_hom toInt? unitTable sc hsc s v d hv
+
+
+/-! ### reset_units with named working units -/
+
+section reset
+variable [CharZero K]
+
+/-- every named working unit is a name of the table whose dimension is the keyword's. -/
+def ChoiceOK (tab : List UnitEntry) (ch : Choice) : Prop :=
+  ∀ k n, ch.get k = some n → ∃ e, lookup tab n = some e ∧ e.dim = k.dim
+
+theorem reset_named_units_are_one (tab : List UnitEntry) (htab : tableOK tab = true)
+    (ch : Choice) (hcount : ch.count ≤ 4) (hover : ch.overDetermined = false) (hch : ChoiceOK tab ch)
+    (r : K) (hr : ∀ x, radicand (envSI (K := K) tab) ch = some x → r * r = x) :
+    ∃ sc, resetScales (envSI (K := K) tab) ch r = some sc ∧ sc.Nonzero ∧
+      ∀ k n, ch.get k = some n → envOf tab sc n = some 1 := by
+  have hf := tableFacts htab
+  obtain ⟨em, hm, hm1, hm2, -⟩ := hf.m
+  obtain ⟨ekg, hkg, hkg1, hkg2, -⟩ := hf.kg
+  obtain ⟨es, hs, hs1, hs2, -⟩ := hf.s
+  obtain ⟨ec, hc, hc1, hc2, -⟩ := hf.c
+  obtain ⟨ej, hj, hj1, hj2, -⟩ := hf.j
+  obtain ⟨xm, hxm, hxm0, hxm1, hxmv⟩ := baseScale_spec (K := K) hf hm hm1 hm2 ch.length
+    (fun n h => (hch .length n h).imp fun e he => he.1)
+  obtain ⟨xkg, hxkg, hxkg0, hxkg1, hxkgv⟩ := baseScale_spec (K := K) hf hkg hkg1 hkg2 ch.mass
+    (fun n h => (hch .mass n h).imp fun e he => he.1)
+  obtain ⟨xs, hxs, hxs0, hxs1, hxsv⟩ := baseScale_spec (K := K) hf hs hs1 hs2 ch.time
+    (fun n h => (hch .time n h).imp fun e he => he.1)
+  obtain ⟨xc, hxc, hxc0, hxc1, hxcv⟩ := baseScale_spec (K := K) hf hc hc1 hc2 ch.charge
+    (fun n h => (hch .charge n h).imp fun e he => he.1)
+  obtain ⟨xj, hxj, hxj0, hxj1, hxjv⟩ := baseScale_spec (K := K) hf hj hj1 hj2 ch.energy
+    (fun n h => (hch .energy n h).imp fun e he => he.1)
+  -- the value of a chosen unit under scalings `sc`, kind by kind
+  have key : ∀ sc : Scales K, sc.m = xm ∨ ch.length = none → sc.kg = xkg ∨ ch.mass = none → sc.s = xs ∨ ch.time = none → sc.c = xc →
+      (ch.energy = none ∨ sc.m ^ 2 * sc.kg / sc.s ^ 2 = xj) →
+      ∀ k n, ch.get k = some n → envOf tab sc n = some 1 := by
+    intro sc e1 e2 e3 e4 e5 k n hk
+    obtain ⟨e, he, hd⟩ := hch k n hk
+    rw [envOf_lookup he, hd]
+    congr 1
+    cases k <;> simp only [Choice.get] at hk <;> simp only [Kind.dim]
+    · rw [factor_length]
+      rcases e1 with e1 | e1
+      · rw [e1]; exact hxmv n e hk he
+      · rw [e1] at hk; cases hk
+    · rw [factor_mass]
+      rcases e2 with e2 | e2
+      · rw [e2]; exact hxkgv n e hk he
+      · rw [e2] at hk; cases hk
+    · rw [factor_time]
+      rcases e3 with e3 | e3
+      · rw [e3]; exact hxsv n e hk he
+      · rw [e3] at hk; cases hk
+    · rw [factor_energy]
+      rcases e5 with e5 | e5
+      · rw [e5] at hk; cases hk
+      · rw [e5]; exact hxjv n e hk he
+    · rw [factor_charge, e4]; exact hxcv n e hk he
+  unfold resetScales
+  rw [if_neg (by omega)]
+  simp only [hxm, hxkg, hxs, hxc]
+  cases hen : ch.energy with
+  | none =>
+    exact ⟨_, rfl, ⟨hxm0, hxkg0, hxs0, hxc0, one_ne_zero⟩,
+      key _ (Or.inl rfl) (Or.inl rfl) (Or.inl rfl) rfl (Or.inl hen)⟩
+  | some en =>
+    rw [hen] at hxj
+    simp only [hxj]
+    by_cases hma : ch.mass = none
+    · have hmm : xm * xm ≠ 0 := mul_ne_zero hxm0 hxm0
+      simp only [hma, Option.isNone_none, if_true, hmm, if_false]
+      refine ⟨_, rfl, ⟨hxm0, ?_, hxs0, hxc0, one_ne_zero⟩, key _ (Or.inl rfl) (Or.inr hma) (Or.inl rfl) rfl (Or.inr ?_)⟩
+      · exact div_ne_zero (mul_ne_zero hxj0 (mul_ne_zero hxs0 hxs0)) hmm
+      · simp only; field_simp
+    · have hma' : ch.mass.isNone = false := by cases h : ch.mass <;> simp_all
+      simp only [hma', Bool.false_eq_true, if_false]
+      by_cases hti : ch.time = none
+      · -- the time unit is fixed by the energy: s = r, r * r = kg m^2 / J
+        have hrad : radicand (envSI (K := K) tab) ch = some (xkg * (xm * xm) / xj) := by
+          simp only [radicand, hen, hxm, hxkg, hxs, hxj]
+          simp [hma', hti]
+        have hr2 := hr _ hrad
+        have hr0 : r ≠ 0 := by
+          intro h0
+          rw [h0, mul_zero] at hr2
+          exact div_ne_zero (mul_ne_zero hxkg0 (mul_ne_zero hxm0 hxm0)) hxj0 hr2.symm
+        simp only [hti, Option.isNone_none, if_true, hxj0, if_false]
+        refine ⟨_, rfl, ⟨hxm0, hxkg0, hr0, hxc0, one_ne_zero⟩, key _ (Or.inl rfl) (Or.inl rfl) (Or.inr hti) rfl (Or.inr ?_)⟩
+        simp only
+        rw [pow_two r, hr2]; field_simp
+      · have hti' : ch.time.isNone = false := by cases h : ch.time <;> simp_all
+        simp only [hti', Bool.false_eq_true, if_false]
+        by_cases hle : ch.length = none
+        · have hrad : radicand (envSI (K := K) tab) ch = some (xj * (xs * xs) / xkg) := by
+            simp only [radicand, hen, hxm, hxkg, hxs, hxj]
+            simp [hma', hti', hle]
+          have hr2 := hr _ hrad
+          have hr0 : r ≠ 0 := by
+            intro h0
+            rw [h0, mul_zero] at hr2
+            exact div_ne_zero (mul_ne_zero hxj0 (mul_ne_zero hxs0 hxs0)) hxkg0 hr2.symm
+          simp only [hle, Option.isNone_none, if_true, hxkg0, if_false]
+          refine ⟨_, rfl, ⟨hr0, hxkg0, hxs0, hxc0, one_ne_zero⟩,
+            key _ (Or.inr hle) (Or.inl rfl) (Or.inl rfl) rfl (Or.inr ?_)⟩
+          simp only
+          rw [pow_two r, hr2]; field_simp
+        · exfalso
+          have : ch.overDetermined = true := by
+            simp only [Choice.overDetermined, hen]
+            cases h1 : ch.length <;> cases h2 : ch.mass <;> cases h3 : ch.time <;> simp_all
+          rw [this] at hover; cases hover
+
+/-- no square root is taken when the mass is not named (the energy then fixes the mass unit). -/
+theorem radicand_mass_none (si : List Char → Option K) (ch : Choice) (h : ch.mass = none) :
+    radicand si ch = none := by
+  unfold radicand
+  split
+  · rfl
+  · split
+    · simp [h]
+    · rfl
+
+/-- decidable form of `ChoiceOK`. -/
+def choiceOKb (tab : List UnitEntry) (ch : Choice) : Bool :=
+  [Kind.length, Kind.mass, Kind.time, Kind.energy, Kind.charge].all fun k =>
+    match ch.get k with
+    | none => true
+    | some n =>
+      match lookup tab n with
+      | some e => e.dim == k.dim
+      | none => false
+
+theorem choiceOK_of_b {tab : List UnitEntry} {ch : Choice} (h : choiceOKb tab ch = true) : ChoiceOK tab ch := by
+  intro k n hk
+  simp only [choiceOKb, List.all_cons, List.all_nil, Bool.and_true, Bool.and_eq_true] at h
+  have hk' : (match ch.get k with
+      | none => true
+      | some n => match lookup tab n with
+        | some e => e.dim == k.dim
+        | none => false) = true := by
+    cases k
+    · exact h.1
+    · exact h.2.1
+    · exact h.2.2.1
+    · exact h.2.2.2.1
+    · exact h.2.2.2.2
+  rw [hk] at hk'
+  cases hl : lookup tab n with
+  | none => simp [hl] at hk'
+  | some e =>
+    simp only [hl, beq_iff_eq] at hk'
+    exact ⟨e, rfl, hk'⟩
+
+/-- `uc.parse(name)` is the table entry, for every name the tokeniser can read back. -/
+theorem parse_name {V : Type} (alg : Alg V) (env : List Char → Option V) (n : List Char) (h : validName n) :
+    parse alg env n = env n :=
+  parse_precedence alg env (.name n) 0 n (Renders.name n h)
+
+/-- … and therefore `uc.parse(chosen unit) = 1` after `reset_units(**kwargs)`. -/
+theorem reset_named_units_parse_one (toInt? : K → Option Int) (tab : List UnitEntry) (htab : tableOK tab = true)
+    (ch : Choice) (hcount : ch.count ≤ 4) (hover : ch.overDetermined = false) (hch : ChoiceOK tab ch)
+    (r : K) (hr : ∀ x, radicand (envSI (K := K) tab) ch = some x → r * r = x) :
+    ∃ sc, resetScales (envSI (K := K) tab) ch r = some sc ∧ sc.Nonzero ∧
+      ∀ k n, ch.get k = some n → validName n → parse (numAlg toInt?) (envOf tab sc) n = some 1 := by
+  obtain ⟨sc, h1, h2, h3⟩ := reset_named_units_are_one tab htab ch hcount hover hch r hr
+  exact ⟨sc, h1, h2, fun k n hk hv => by rw [parse_name _ _ n hv]; exact h3 k n hk⟩
+
+end reset
+
+/-! ### non-vacuity: the hypotheses of the theorems above are satisfiable on the generated tables -/
+
+/-- decidable form of `validName`. -/
+def validNameB : List Char → Bool
+  | [] => false
+  | c :: cs => isAlphaStart c && cs.all (fun x => !isStop x && x != '(' && x != ')')
+
+theorem validName_of_b {n : List Char} (h : validNameB n = true) : validName n := by
+  cases n with
+  | nil => simp [validNameB] at h
+  | cons c cs =>
+    simp only [validNameB, Bool.and_eq_true, List.all_eq_true, Bool.not_eq_true', bne_iff_ne, ne_eq] at h
+    exact ⟨c, cs, rfl, h.1, fun x hx => (h.2 x hx).1.1, fun x hx => ⟨(h.2 x hx).1.2, (h.2 x hx).2⟩⟩
+
+/-- every name of the generated table can be read back by the tokeniser. -/
+theorem table_names_valid : unitTable.all (fun e => validNameB e.name) = true := by decide +kernel
+
+-- a rendering in the sense of `parse_precedence`: `kg*m/s^2` with blanks and redundant parentheses
+example : Renders (.div (.mul (.name ['k', 'g']) (.name ['m'])) (.pow (.name ['s']) (.num ['-', '2'])))
+    2 " kg*(m)/s^-2".toList := by
+  have hk : validName ['k', 'g'] := validName_of_b (by decide)
+  have hm : validName ['m'] := validName_of_b (by decide)
+  have hs : validName ['s'] := validName_of_b (by decide)
+  have h2 : validNum ['-', '2'] := ⟨'-', ['2'], rfl, by decide, by simp [noStop, isStop], by simp [noParen]⟩
+  exact Renders.div
+    (Renders.mul (Renders.wsL ' ' (by decide) (Renders.up (Renders.up (Renders.name _ hk))))
+      (Renders.up (Renders.paren (Renders.name _ hm))))
+    (Renders.pow (Renders.up (Renders.name _ hs)) (Renders.num _ h2))
+
+-- hypotheses of `eval_dimension_hom` / `same_dim_ratio_invariant` / `dim_analysis_sound` on the generated table
+example : parse (trackAlg ratToInt?) (envTracked (K := Rat) unitTable) "kg*m/s^2".toList
+    = some (1, ⟨1, 1, -2, 0, 0⟩) := by decide +kernel
+example : parse (trackAlg ratToInt?) (envTracked (K := Rat) unitTable) "N".toList
+    = some (1, ⟨1, 1, -2, 0, 0⟩) := by decide +kernel
+example : (parse dimAlg (envDim unitTable) "dyn".toList).map (·.dim) = some ⟨1, 1, -2, 0, 0⟩ := by decide +kernel
+example : (parse dimAlg (envDim unitTable) "kg*m/s^2".toList).map (·.dim) = some ⟨1, 1, -2, 0, 0⟩ := by
+  decide +kernel
+example : (⟨3, 1 / 7, 11, 5 / 2, 1⟩ : Scales Rat).Nonzero := by
+  refine ⟨?_, ?_, ?_, ?_, ?_⟩ <;> norm_num
+-- precedence as numbers: `2^-2^3 = (2^-2)^3`, blanks ignored
+example : parse (numAlg ratToInt?) (envSI (K := Rat) unitTable) " 2 ^ -2\t^ 3 ".toList = some (1 / 64) := by
+  decide +kernel
+
+-- hypotheses of `reset_named_units_are_one`: the atomman default (time fixed by the energy: a square root), a choice
+-- without square root, and one whose square root is rational
+example : choiceOKb unitTable ⟨some "angstrom".toList, some "amu".toList, none, some "eV".toList, some "e".toList⟩
+    = true := by decide +kernel
+example : ∃ sc : Scales Rat, resetScales (envSI (K := Rat) unitTable)
+      ⟨some "angstrom".toList, none, some "ps".toList, some "eV".toList, none⟩ 0 = some sc
+    ∧ envOf unitTable sc "eV".toList = some 1 ∧ envOf unitTable sc "angstrom".toList = some 1
+    ∧ envOf unitTable sc "ps".toList = some 1 := by
+  have hch : ChoiceOK unitTable ⟨some "angstrom".toList, none, some "ps".toList, some "eV".toList, none⟩ :=
+    choiceOK_of_b (by decide +kernel)
+  obtain ⟨sc, h1, _, h3⟩ := reset_named_units_are_one (K := Rat) unitTable unit_table_ok _ (by decide) (by decide) hch 0
+    (by intro x hx; rw [radicand_mass_none _ _ rfl] at hx; cases hx)
+  exact ⟨sc, h1, h3 .energy _ rfl, h3 .length _ rfl, h3 .time _ rfl⟩
+example : radicand (envSI (K := Rat) unitTable) ⟨some "m".toList, some "kg".toList, none, some "J".toList, none⟩
+    = some (1 * 1) := by decide +kernel
 
 end Atomman.C09
